@@ -133,6 +133,56 @@ theorem set_get_inverse_parse (toInt? : K → Option Int) (env : List Char → O
     (parseUnits (numAlg toInt?) env u).map (getInUnits (setInUnits vals f)) = some vals := by
   rw [hu]; simp [set_get_inverse vals f hf]
 
+/-! complex values: `(re, im)` pairs, the real factor promoted to `f + 0j` (numpy). -/
+
+/-- `np.asarray(z) * f` acts on the real and on the imaginary part separately … -/
+theorem set_in_units_complex_parts (vals : List (K × K)) (f : K) :
+    setInUnitsC vals f = vals.map fun z => (z.1 * f, z.2 * f) := by
+  simp only [setInUnitsC]
+  apply List.map_congr_left
+  intro z _
+  simp only [cxMul, Prod.mk.injEq]
+  constructor <;> ring
+
+/-- … and so does `np.asarray(z) / f` for a non-zero factor. -/
+theorem get_in_units_complex_parts (vals : List (K × K)) (f : K) (hf : f ≠ 0) :
+    getInUnitsC vals f = vals.map fun z => (z.1 / f, z.2 / f) := by
+  simp only [getInUnitsC]
+  apply List.map_congr_left
+  intro z _
+  simp only [cxDiv, Prod.mk.injEq]
+  constructor <;> field_simp <;> ring
+
+/-- `get_in_units(set_in_units(z, u), u) = z` for complex `z`: neither part is lost or changed. -/
+theorem set_get_inverse_complex (vals : List (K × K)) (f : K) (hf : f ≠ 0) :
+    getInUnitsC (setInUnitsC vals f) f = vals := by
+  rw [set_in_units_complex_parts, get_in_units_complex_parts _ _ hf, List.map_map]
+  conv_rhs => rw [← List.map_id vals]
+  apply List.map_congr_left
+  intro z _
+  simp only [Function.comp, id]
+  ext <;> field_simp
+
+/-- a real value handed over as complex (`x + 0j`) converts like the real value and stays real. -/
+theorem set_in_units_complex_of_real (vals : List K) (f : K) :
+    setInUnitsC (vals.map fun x => (x, 0)) f = (setInUnits vals f).map fun x => (x, 0) := by
+  rw [set_in_units_complex_parts]
+  simp [setInUnits, List.map_map, Function.comp]
+
+/-- the wire form the driver answers `setc` / `getc` with: the parts, interleaved, each converted as a real value. -/
+theorem set_in_units_complex_flat (vals : List (K × K)) (f : K) :
+    cxFlat (setInUnitsC vals f) = setInUnits (cxFlat vals) f := by
+  rw [set_in_units_complex_parts]
+  induction vals with
+  | nil => rfl
+  | cons z rest ih =>
+    simp only [cxFlat, setInUnits, List.map_cons, List.flatMap_cons, List.map_append, List.map_nil] at ih ⊢
+    rw [ih]
+
+example : getInUnitsC (setInUnitsC [((1 : Rat), 2), (0, -1 / 2), (3, 0)] (7 / 3)) (7 / 3) = [(1, 2), (0, -1 / 2), (3, 0)] := by
+  decide +kernel
+example : cxPairs (cxFlat [((1 : Rat), 2), (0, -1 / 2)]) = [(1, 2), (0, -1 / 2)] := by decide +kernel
+
 /-- **dimension homomorphism** (string level, every string): if an expression evaluates to `(v, d)`
     under SI with dimension tracking, then after any rescaling of the base units it evaluates to
     `v · m^d₁ kg^d₂ s^d₃ C^d₄ K^d₅`. -/
